@@ -78,3 +78,7 @@ def replay(case):
     gd = case["graph"]
     gd = {"nodes": gd["nodes"], "di": gd["di"], "bi": gd["bi"]}
     run_case(_C(), gd, [[c[0], [list(w) for w in c[1]], c[2]] for c in case["event"]], "replay", via=case.get("via", "cg"))
+
+
+def install_for_suite():
+    mon_cf.install_cg()
